@@ -136,10 +136,10 @@ type entry struct {
 	cacheable bool
 }
 
-func (e entry) Type() string                        { return e.typ }
-func (e entry) Key() any                            { return e.key }
+func (e entry) Type() string                         { return e.typ }
+func (e entry) Key() any                             { return e.key }
 func (e entry) DependentConfigs() []model.ConfigHash { return e.deps }
-func (e entry) Cacheable() bool                     { return e.cacheable }
+func (e entry) Cacheable() bool                      { return e.cacheable }
 
 func parseKey(tok string) (any, bool) {
 	if strings.HasPrefix(tok, "s") {
